@@ -383,6 +383,33 @@ fn check_disconnect(w: &mut World, ci: usize, t_end_ns: u64) -> bool {
         for m in msgs {
             w.viol("C09", "terminal-event-late", format!("address {}: {}", addr, m));
         }
+        // Error(Timeout) is the outcome for a peer that has become unreachable. An endpoint whose
+        // own request is on the wire (it is closing) and which then READS a Disconnect or a
+        // DisconnectAck from its peer has its answer: it must end with Disconnect, not run its
+        // retry budget down to Error(Timeout).
+        for (evs, name, steps) in [(&cev, "client", w.clients[ci].step_times.clone()), (&sev, "server", w.server.step_times.clone())] {
+            let is_client = name == "client";
+            let own_first = w.wire.iter().find(|r| !r.injected && matches!(r.frame, Some(RFrame::Disconnect)) && if is_client { r.src == addr && r.dst == srv && r.t_ns >= created && r.t_ns <= c_gone } else { r.src == srv && r.dst == addr && s_conn_t.map_or(false, |t| r.t_ns >= t) }).map(|r| r.t_ns);
+            let own_first = match own_first {
+                Some(t) => t,
+                None => continue,
+            };
+            let to = match evs.iter().find(|e| matches!(e.ev, Ev::Disconnect | Ev::Error(_))) {
+                Some(e) if e.ev == Ev::Error("timeout") && e.t_ns > own_first => e.t_ns,
+                _ => continue,
+            };
+            if evs.iter().any(|e| e.ev == Ev::AppDrop && e.t_ns <= to) {
+                continue;
+            }
+            let (me, peer) = if is_client { (addr, srv) } else { (srv, addr) };
+            w.c.inc("c09_disconnect_attempt_timeouts_checked");
+            // an answer put into the socket after the request left and read by a step before the
+            // step that reported the timeout
+            let answer = w.delivered.iter().find(|d| d.src == peer && d.dst == me && matches!(d.frame, Some(RFrame::Disconnect) | Some(RFrame::DisconnectAck)) && d.t_ns > own_first && steps.iter().any(|&s| s >= d.t_ns && s < to)).map(|d| (d.t_ns, matches!(d.frame, Some(RFrame::Disconnect))));
+            if let Some((t_ans, is_req)) = answer {
+                w.viol("C09", "timeout-although-peer-answered", format!("{} (address {}) sent its Disconnect request at t={} ms, read a {} from its peer delivered at t={} ms, and still ended with Error(Timeout) at t={} ms instead of Disconnect: the peer was reachable", name, addr, own_first / MS, if is_req { "Disconnect" } else { "DisconnectAck" }, t_ans / MS, to / MS));
+            }
+        }
     }
     // disconnect_now(): the request is on the wire by the caller's next step
     for (evs, is_client) in [(&cev, true), (&sev, false)] {
@@ -554,6 +581,7 @@ pub fn run_lifecycle(seed: u64, params: &Params, out: &mut ScnOut) {
     let t_end = w.now_ns;
     check_payloads(&mut w);
     check_syn_handling(&mut w);
+    check_reack(&mut w);
     let mut nontrivial_c09 = false;
     for ci in 0..w.clients.len() {
         if check_disconnect(&mut w, ci, t_end) {
@@ -1012,8 +1040,12 @@ pub fn run_handshake(seed: u64, params: &Params, out: &mut ScnOut) {
         b2.truncate(400);
         wb.viol("C07", "forged-handshake-frame-changed-history", format!("twin runs differ: with {} forged / stale / duplicated handshake frames from spoofed sources the application-visible history changed: without: [{}] with: [{}]", forged, a2, b2));
     }
+    check_reack(&mut wa);
+    check_reack(&mut wb);
     // violations seen in the clean run count as well
     wb.violations.extend(std::mem::take(&mut wa.violations));
+    let ra = wa.c.get("c07_repeated_synacks_to_established_client") + wa.c.get("c07_valid_acks_read_by_server");
+    wb.c.add("c07_reack_cases_clean_run", ra);
     let lost_hs = wb.c.get("fate_drop") > 0;
     let nontrivial = forged >= 1 || lost_hs;
     let sample = if seed % 61 == 0 { Some(history_sample(&wb, "handshake twin (forged run)")) } else { None };
@@ -1869,6 +1901,7 @@ pub fn run_timers(seed: u64, params: &Params, out: &mut ScnOut) {
             }
         }
     }
+    check_reack(&mut w);
     let connected = w.c.get("cli_connect") > 0;
     let timed_out = w.c.get("c10_timeouts_checked") + w.c.get("c10_handshake_timeouts_checked") + w.c.get("c10_disconnect_attempts_checked") > 0;
     let idle_long = connected && !blackout && t_end > ccfg.active_timeout_ms.max(scfg_ep.active_timeout_ms).saturating_mul(3 * MS);
@@ -2171,6 +2204,84 @@ pub fn run_disconnect(seed: u64, params: &Params, out: &mut ScnOut) {
 /// resend timer answers). A pending entry that outlives its 22 s makes the server deaf to the
 /// address. (2) A Connect must rest on a handshake that is still alive: the SYN-ACK whose nonce
 /// the ACK returns was first sent less than 23 s earlier.
+/// C07, the other half of "exactly one Connect on each side": a handshake whose first ACK was lost
+/// must still complete. (a) An established client that reads a repeated SYN-ACK of its own server
+/// (echoing the client's nonce, carrying the server nonce the connection was made with) answers it
+/// in that step with an ACK echoing that server nonce. (b) Once such an ACK is read by the server
+/// while the handshake is still pending, the server reports the connection (or refuses it).
+fn check_reack(w: &mut World) {
+    let srv = w.server.addr;
+    let mut first: Option<(&'static str, String)> = None;
+    for ci in 0..w.clients.len() {
+        let c = &w.clients[ci];
+        let addr = c.addr;
+        let nc = match c.syn_nonce {
+            Some(n) => n,
+            None => continue,
+        };
+        let t_conn = match c.events.iter().find(|e| e.ev == Ev::Connect) {
+            Some(e) => e.t_ns,
+            None => continue,
+        };
+        let t_end = c.events.iter().filter(|e| matches!(e.ev, Ev::Disconnect | Ev::Error(_) | Ev::AppDisconnect | Ev::AppDisconnectNow | Ev::AppDrop) && e.t_ns >= t_conn).map(|e| e.t_ns).min().unwrap_or(u64::MAX).min(c.dropped_ns.unwrap_or(u64::MAX));
+        let next_obj = w.clients.iter().filter(|o| o.addr == addr && o.created_ns > c.created_ns).map(|o| o.created_ns).min().unwrap_or(u64::MAX);
+        let synacks: Vec<(u64, u32)> = w.delivered.iter().filter(|d| d.src == srv && d.dst == addr && !d.injected && d.t_ns >= c.created_ns && d.t_ns < t_end.min(next_obj)).filter_map(|d| match d.frame { Some(RFrame::SynAck { nonce_ack, nonce, .. }) if nonce_ack == nc => Some((d.t_ns, nonce)), _ => None }).collect();
+        let before: Vec<u32> = synacks.iter().filter(|(t, _)| *t <= t_conn).map(|x| x.1).collect();
+        let s_nonce = match before.first() {
+            Some(&s) if before.iter().all(|&x| x == s) => s,
+            _ => continue,
+        };
+        // (a) repeated SYN-ACKs read while established
+        for &(t, s) in synacks.iter().filter(|(t, _)| *t > t_conn) {
+            if s != s_nonce {
+                continue;
+            }
+            // (a datagram delivered at the instant of a step may have arrived just after it: the
+            // step that has certainly read it is the first one strictly later)
+            let step = match c.step_times.iter().find(|&&x| x > t) {
+                Some(&x) if x < t_end => x,
+                _ => continue,
+            };
+            w.c.inc("c07_repeated_synacks_to_established_client");
+            let acks: Vec<u32> = w.wire.iter().filter(|r| r.src == addr && r.dst == srv && !r.injected && r.t_ns >= t && r.t_ns <= step).filter_map(|r| if let Some(RFrame::Ack { nonce_ack }) = r.frame { Some(nonce_ack) } else { None }).collect();
+            if !acks.contains(&s_nonce) && first.is_none() {
+                first = Some(("synack-to-established-client-not-acknowledged", format!("client object {} ({}) connected at t={} ms with server nonce {:#x}; the server's repeated SYN-ACK (its first ACK was lost) was delivered at t={} ms and read by t={} ms, but the client sent {} by then instead of an ACK echoing {:#x}: the server can never complete the handshake", ci, addr, t_conn / MS, s_nonce, t / MS, step / MS, if acks.is_empty() { "no ACK".to_string() } else { format!("ACKs echoing {:x?}", acks) }, s_nonce)));
+            }
+        }
+        // (b) a correct ACK read by the server while the handshake is pending
+        let first_synack_sent = w.wire.iter().find(|r| r.src == srv && r.dst == addr && !r.injected && r.t_ns >= c.created_ns && matches!(r.frame, Some(RFrame::SynAck { nonce_ack, nonce, .. }) if nonce_ack == nc && nonce == s_nonce)).map(|r| r.t_ns);
+        let first_synack_sent = match first_synack_sent {
+            Some(t) => t,
+            None => continue,
+        };
+        let ack_del = w.delivered.iter().find(|d| d.src == addr && d.dst == srv && !d.injected && d.t_ns >= first_synack_sent && d.t_ns < next_obj && matches!(d.frame, Some(RFrame::Ack { nonce_ack }) if nonce_ack == s_nonce)).map(|d| d.t_ns);
+        let ack_del = match ack_del {
+            Some(t) => t,
+            None => continue,
+        };
+        let s_step = match w.server.step_times.iter().find(|&&x| x > ack_del) {
+            Some(&x) => x,
+            None => continue,
+        };
+        // the pending entry may have run out of its 22 s, or the application may have ended it
+        if s_step >= first_synack_sent + 21 * SEC {
+            continue;
+        }
+        if w.server.events.iter().any(|(a, e)| *a == addr && e.t_ns >= c.created_ns && e.t_ns <= s_step && matches!(e.ev, Ev::AppDrop | Ev::AppDisconnect | Ev::AppDisconnectNow)) {
+            continue;
+        }
+        w.c.inc("c07_valid_acks_read_by_server");
+        let reported = w.server.events.iter().any(|(a, e)| *a == addr && e.t_ns >= first_synack_sent && e.t_ns <= s_step && matches!(e.ev, Ev::Connect | Ev::Error(_)));
+        let refused = w.wire.iter().any(|r| r.src == srv && r.dst == addr && !r.injected && r.t_ns >= first_synack_sent && r.t_ns <= s_step && matches!(r.frame, Some(RFrame::Error { .. })));
+        if !reported && !refused && first.is_none() {
+            first = Some(("valid-ack-did-not-complete-handshake", format!("the server admitted the handshake of {} at t={} ms (SYN-ACK with nonce {:#x}); an ACK echoing that nonce was delivered at t={} ms and read by the server's step at t={} ms, within the 22 s the handshake stays pending, yet the server neither reported Connect nor refused the connection", addr, first_synack_sent / MS, s_nonce, ack_del / MS, s_step / MS)));
+        }
+    }
+    if let Some((rule, msg)) = first {
+        w.viol("C07", rule, msg);
+    }
+}
+
 fn check_syn_handling(w: &mut World) {
     use std::collections::BTreeMap;
     let srv = w.server.addr;
@@ -2430,6 +2541,7 @@ pub fn run_limits(seed: u64, params: &Params, out: &mut ScnOut) {
         _ => {}
     }
     let mut w = World::new(seed, net, verbose);
+    let mut xrng = Rng::new(seed ^ 0xc055);
     let mk = |rng: &mut Rng| uflow::EndpointConfig {
         max_send_rate: 2_000_000,
         max_receive_rate: 2_000_000,
@@ -2540,9 +2652,20 @@ pub fn run_limits(seed: u64, params: &Params, out: &mut ScnOut) {
                 if action <= 1 && reconnects && w.clients[i].state == 1 && rng.chance(0.7) {
                     reconnect_at[k] = Some(w.now_ns + rng.range(100, 9000) * MS);
                 }
+                // crossing closes: both applications end the connection within one round trip, so
+                // that each side is closing when the other's request arrives
+                let crossing = xrng.chance(0.3);
+                if crossing && action != 2 && action != 3 {
+                    w.c.inc("c17_crossing_disconnects");
+                }
                 match action {
-                    0 => w.client_disconnect(i, false),
-                    1 => w.client_disconnect(i, true),
+                    0 | 1 => {
+                        w.client_disconnect(i, action == 1);
+                        if crossing {
+                            let a = w.clients[i].addr;
+                            w.server_disconnect(a, xrng.chance(0.6));
+                        }
+                    }
                     2 => w.drop_client(i),
                     3 => {
                         let a = w.clients[i].addr;
@@ -2560,6 +2683,9 @@ pub fn run_limits(seed: u64, params: &Params, out: &mut ScnOut) {
                             w.c.inc("c17_graceful_disconnects_with_queued_data");
                         }
                         w.server_disconnect(a, now);
+                        if crossing {
+                            w.client_disconnect(i, xrng.chance(0.6));
+                        }
                     }
                 }
                 w.c.inc("c17_connections_ended_by_script");
@@ -2588,6 +2714,7 @@ pub fn run_limits(seed: u64, params: &Params, out: &mut ScnOut) {
     }
     check_admissions(&mut w, max_total);
     check_syn_handling(&mut w);
+    check_reack(&mut w);
     // phase 2: everything ends; after the closed linger capacity must be available again
     for k in 0..n_clients {
         if let Some(i) = idx[k] {
